@@ -211,6 +211,10 @@ def ref_vectors(term, reg, objs, draws):
     """verdicts of a callable decorated with the EVALUATED hint the term denotes; an unresolvable leaf is tried as
     accept-everything and as accept-nothing: equal verdicts = the leaf is not needed, else it must raise ('F')"""
     from beartype import beartype
+    from beartype._check.convert import _convcoerce
+    # the reference must not inherit the hint the decorator cached for the callable under test: `list[<proxy of C>]`
+    # and `list[C]` have the same repr(), which is the key of this cache
+    _convcoerce._hint_repr_to_hint.clear()
     modes = ['any', 'never'] if has_unres(term) else ['any']
     per_mode, info = [], {}
     for mode in modes:
